@@ -40,13 +40,16 @@ pub enum Op {
     Unlock,
     Read,
     ReadAsync,
-    ReadPollDrop,
+    ReadPoll,
     TryRead,
-    ReadUnlock,
     Write,
     WriteAsync,
+    WritePoll,
     TryWrite,
-    WriteUnlock,
+    /// block on a lock future that was polled before
+    FutAwait,
+    /// access to the protected cell under the held guard
+    Touch,
     Join,
 }
 
